@@ -1,17 +1,139 @@
-"""Check of property C13."""
-from ..props import CHECKS, report_mismatches
+"""Check of property C13.
+
+One stream ("path").  Lines of kind `one` / `two` carry two segments `avfs || oracle`:
+  segment 1  what avfs (generic implementation, tag avfs_setostype) returns for a MemFS of the OS type,
+  segment 2  what Go's own path/filepath of that OS returns: the host's package for linux, and for windows the
+             toolchain's Windows sources retargeted to this host by lib/vcheck/winportgen.py (harness/winfp).
+The extracted Coq model prints its answer in both segments (avfs claims equality), so per line
+  avfs != oracle            the implementation deviates from Go's path/filepath of the emulated OS,
+  avfs == oracle != model   the model (what the theorems speak about) does not describe the code,
+and `pi` lines (PathIterator) compare avfs with the model only.  Every deviation is a VIOLATION.
+"""
+import os
+import re
+
+from ..props import CHECKS
+from .. import winportgen
+
+STREAM = {"name": "path", "harness": "path", "driver": "path", "tags": "avfs_setostype"}
+
+
+def untok(t):
+    if re.fullmatch(r"s([0-9a-f]{2})*", t):
+        return bytes.fromhex(t[1:]).decode("utf-8", "backslashreplace")
+    return t
+
+
+def fields(seg):
+    return dict(x.split("=", 1) for x in seg.split() if "=" in x)
+
+
+def diff_fields(a, b):
+    """names of the differing fields; `rel` is written rel(hang) when avfs' Rel did not return although the
+    reference did, and rel(notcalled) for the inputs after the harness stopped calling a hanging Rel."""
+    fa, fb = fields(a), fields(b)
+    d = sorted(k for k in set(fa) | set(fb) if fa.get(k) != fb.get(k))
+    if "rel" in d and "notcalled" in (fa.get("rel"), fb.get("rel")):
+        d[d.index("rel")] = "rel(notcalled)"
+    elif "rel" in d and "loop" in (fa.get("rel"), fb.get("rel")):
+        d[d.index("rel")] = "rel(hang)"
+    return d
+
+
+def classify(case, model, observed):
+    """-> (kind, differing fields)."""
+    if " || " not in observed or " || " not in model:
+        return "model", diff_fields(model, observed)
+    impl, oracle = observed.split(" || ", 1)
+    m1 = model.split(" || ", 1)[0]
+    if impl != oracle:
+        return "oracle", diff_fields(impl, oracle)
+    return "model", diff_fields(m1, impl)
+
+
+def readable(case):
+    f = case.split()
+    return " ".join(f[:2] + [repr(untok(x)) for x in f[2:]])
 
 
 def check_C13(ctx):
     ctx.proofs()
-    st = {"name": "path", "harness": "path", "driver": "path", "tags": "avfs_setostype"}
+    tr = ctx.coverage.setdefault("windows_oracle", {})
+    tr.update({"translator": "lib/vcheck/winportgen.py", "package": "harness/winfp (generated on this run)",
+               "toolchain": winportgen.INFO.get("toolchain"), "goroot": winportgen.INFO.get("goroot"),
+               "sources": winportgen.INFO.get("sources"), "error": winportgen.LAST_ERROR})
+    if winportgen.LAST_ERROR or not winportgen.INFO.get("sources"):
+        # fail closed: without the translated package there is no oracle for the Windows flavour
+        ctx.broken("winport-translator", "the toolchain's Windows path/filepath could not be retargeted (lib/vcheck/winportgen.py): "
+                   "no oracle for the Windows flavour", str(winportgen.LAST_ERROR or "translator did not run"))
+        return
+    ok, out = winportgen.selftest()
+    tr["selftest"] = dict(winportgen.INFO.get("selftest", {}), cmd="go test -count=1 -vet=off -v ./winfp/  (the toolchain's own "
+                          "TestClean/TestJoin/TestSplit/TestDir/TestBase/TestIsAbs/TestRel/TestVolumeName/TestMatch/... with their Windows tables, "
+                          "copied from path/filepath/{path,match}_test.go, runtime.GOOS bound to \"windows\")")
+    if not ok:
+        ctx.broken("winport-selftest", "the retargeted Windows path/filepath (harness/winfp) does not pass the toolchain's own tests of these "
+                   "functions: it is not a faithful copy and cannot serve as the oracle", out[-3000:])
+        return
+    ctx.coverage["trusted_base"] += [
+        "oracle of the Windows flavour: %s sources internal/filepathlite/{path,path_windows}.go and path/filepath/{path,path_windows,match}.go, "
+        "copied declaration by declaration by lib/vcheck/winportgen.py (import paths re-pointed, OS-dependent declarations dropped, "
+        "one iteration budget added to the loop of Rel; design.d/C13-windows.md); trusted: the translator's declaration splitter and the "
+        "five shim packages harness/winfp/shim/{os,runtime,syscall,bytealg,stringslite} (a few lines each: PathSeparator, "
+        "PathListSeparator, IsPathSeparator, GOOS, a failing FullPath, five helpers delegating to package strings)" % winportgen.INFO.get("toolchain"),
+        "oracle of the POSIX flavour: the host's path/filepath",
+        "Abs: Windows' own Abs asks the system (GetFullPathName) and cannot be retargeted; avfs.Abs(path, curDir) is compared with "
+        "path/filepath's portable definition (unixAbs: Clean if IsAbs, else Join(curDir, path)) over the Windows functions",
+    ]
     mm = ctx.stream("path", "path", "path", tags="avfs_setostype")
     if mm is None:
         return
-    # every line carries, for the POSIX flavour, a second segment with what the host's path/filepath returns;
-    # the model prints the same functions in both segments, so a mismatch in either segment is a deviation of
-    # the code from the model (segment 1) or of the model from path/filepath (segment 2).
-    report_mismatches(ctx, mm, st, "avfs path functions / PathIterator differ from the model or from the host's path/filepath on %d generated inputs", shrink=False)
+    # known finding: Rel does not return where the toolchain's Windows Rel does not either.  Reproduced on its
+    # witness by a real call (the main stream really calls avfs on the first few such inputs only).
+    for kf in ctx.kf:
+        if kf.get("id") != "C13-rel-unc-root-loop":
+            continue
+        w = kf["witness"]
+        wit = " ".join((w.get("case", "") if isinstance(w, dict) else w).split()[:4])
+        mmk = ctx.stream("path-kf", "path", "path", tags="avfs_setostype", replay_lines=[wit])
+        if mmk is None:
+            return
+        try:
+            obs = open(os.path.join(ctx.dir, "path-kf.observed")).read().strip()
+        except OSError:
+            obs = ""
+        segs = obs.split(" || ")
+        if len(segs) == 2 and fields(segs[0]).get("rel") == "loop" and fields(segs[1]).get("rel") == "loop":
+            ctx.known_finding(kf["id"], kf["what"])
+            ctx.coverage["samples"].append({"stream": "path (windows, known finding witness, avfs || toolchain's Windows path/filepath)",
+                                            "case": wit + " => " + obs})
+            ctx.coverage["streams"]["path"]["rel_nonterminating_inputs"] = \
+                ctx.coverage["streams"]["path"].get("distribution", {}).get("outcome:rel-loop", 0)
+        mm = mm + [(-1, c, m, o) for (_, c, m, o) in mmk]
+    kinds = {"oracle": [], "model": []}
+    byfield = {"oracle": {}, "model": {}}
+    for (i, c, m, o) in mm:
+        k, fs = classify(c, m, o)
+        kinds[k].append((i, c, m, o, fs))
+        osn = c.split()[1] if len(c.split()) > 1 else "?"
+        for f in fs or ["?"]:
+            key = osn + ":" + f
+            byfield[k][key] = byfield[k].get(key, 0) + 1
+    ctx.coverage["streams"]["path"]["deviations_from_path_filepath"] = len(kinds["oracle"])
+    ctx.coverage["streams"]["path"]["deviations_from_model_only"] = len(kinds["model"])
+    what = {
+        "oracle": "avfs path functions differ from Go's path/filepath of the emulated OS on %d generated inputs (per OS type and function: %s); first: %s",
+        "model": "avfs path functions / PathIterator differ from the Coq model on %d generated inputs where no oracle contradicts avfs (per OS type and function: %s); first: %s",
+    }
+    for k in ("oracle", "model"):
+        if not kinds[k]:
+            continue
+        # one replay per kind: the shortest case, so that the witness is readable
+        i, c, m, o, fs = min(kinds[k], key=lambda x: (x[4] == ["rel(notcalled)"], len(x[1]), x[0]))
+        summ = ", ".join("%s %d" % kv for kv in sorted(byfield[k].items()))
+        ctx.violation("path-" + k, what[k] % (len(kinds[k]), summ, readable(c)),
+                      {"stream": STREAM, "case": c, "case_readable": readable(c), "model": m, "observed": o,
+                       "differing_fields": fs, "kind": k, "mismatching_cases_in_run": len(kinds[k]), "per_function": byfield[k]})
 
 
 CHECKS["C13"] = check_C13
